@@ -181,6 +181,33 @@ fn moving_compaction_tail(tree: &mut LsmTree, new_version: Version) -> (r: Resul
 //@ >>
 //@ end
 
-//@ min-verified 4
+// ---------------------------------------------------------------- memtable rollover wakes the flush thread
+// the flush thread sleeps `while state.imm_trigger < state.mem_seq_no`; a rollover makes that condition false and notifies
+struct RollState { imm_trigger: u64, mem_seq_no: u64 }
+#[verifier::external_body]
+struct FlushCondvar { _p: u8 }
+impl FlushCondvar {
+    uninterp spec fn notified(&self) -> nat;
+    #[verifier::external_body]
+    fn notify_one(&mut self) ensures final(self).notified() == old(self).notified() + 1 { unimplemented!() }
+}
+fn max_u64(a: u64, b: u64) -> (r: u64) ensures r == (if a >= b { a } else { b }) { if a >= b { a } else { b } }
+fn min_u64(a: u64, b: u64) -> (r: u64) ensures r == (if a <= b { a } else { b }) { if a <= b { a } else { b } }
+struct KvsRoll { cnd_needs_memtable_flush: FlushCondvar }
+impl KvsRoll {
+//@ extract lsmtk/src/kvs/mod.rs | impl KeyValueStore :: fn rollover_memtable
+//@ ret r
+//@ rewrite-re X20 `fn rollover_memtable<'a: 'b, 'b>\(\s*&'a self,\s*mut lock_guard: MutexGuard<'b, KeyValueStoreState>,\s*\) -> MutexGuard<'b, KeyValueStoreState>` => `fn rollover_memtable(&mut self, mut lock_guard: RollState) -> RollState`
+//@ rewrite-re? X4 `std::cmp::max\(` => `max_u64(`
+//@ rewrite-re? X4 `std::cmp::min\(` => `min_u64(`
+//@ post <<
+        // the flush thread's wait condition is false afterwards, and it has been told
+        r.imm_trigger >= r.mem_seq_no, r.mem_seq_no == lock_guard.mem_seq_no, r.imm_trigger >= lock_guard.imm_trigger,
+        final(self).cnd_needs_memtable_flush.notified() >= old(self).cnd_needs_memtable_flush.notified() + 1,
+//@ >>
+//@ end
+}
+
+//@ min-verified 5
 } // verus!
 fn main() {}
